@@ -269,8 +269,13 @@ def gen_cases(ctx):
         cfg = {"kind": kind, "width": int(rng.integers(1, 5)), "depth": int(rng.integers(1, 4))}
         if kind == "log8":
             cfg.update(max_count=pick(rng, [300, 1000, 5000]), num_reserved=pick(rng, [0, 5, 15]))
+            if i % 4 == 1:
+                # most of the range is reserved: two exact counters can add up to more than max_count
+                cfg.update(max_count=pick(rng, [300, 330, 400]), num_reserved=pick(rng, [200, 240, 254]))
         elif kind == "log16":
             cfg.update(max_count=pick(rng, [70000, 10**5]), num_reserved=pick(rng, [0, 100, 1023]))
+            if i % 4 == 2:
+                cfg.update(max_count=pick(rng, [70000, 66000]), num_reserved=pick(rng, [40000, 60000, 65534]))
         keys = key_family(rng, 5, 0, 6)
         evs = []
         nsk = 3
@@ -282,7 +287,7 @@ def gen_cases(ctx):
             elif kind == "linear":
                 evs.append([int(rng.integers(0, nsk)), ops.gen_op(rng, keys, big=0.5, zero=0.05)])
             else:
-                evs.append([int(rng.integers(0, nsk)), ops.gen_op(rng, keys, max_value=(4000 if kind == "log8" else 30000), big=0.0, zero=0.05)
+                evs.append([int(rng.integers(0, nsk)), ops.gen_op(rng, keys, max_value=(min(4000, cfg["max_count"] * 2 // 3) if kind == "log8" else min(30000, cfg["max_count"] * 2 // 3)), big=0.0, zero=0.05)
                             if rng.random() < 0.7 else ["add", hx(keys[0]), int(cfg["max_count"])]])
         cases.append({"type": "monotone", "cfg": cfg, "events": evs, "strangers": [hx(rand_key(rng, 0, 5))], "n": nsk})
     for i, c in enumerate(cases):
